@@ -1,10 +1,12 @@
 """C05 - return values report the server's actual outcome (partial: tables, verbs, reply -> return decisions)."""
 import ast
+from collections import namedtuple
 
 from .model import AnalysisError, NotConst, fold, node_src, is_self_attr, call_name
 from .paths import Interp, Domain, Env, TOP, NONE, Const, TupleV, Exc, ORD, fmt_trace, Opaque
 from .report import walk_no_nested
 from . import wire, spec, exchange
+from .colls import ExactCollections, GenV
 
 LEVEL = "other"
 LEVEL_TEXT = (
@@ -90,6 +92,280 @@ class ReplyDomain(Domain):
         return TOP
 
 
+class Val(namedtuple("Val", "tag")):
+    """A caller-supplied or deserialised value: nothing is known about its truthiness or whether it is None."""
+
+
+class StoreDomain(ExactCollections, ReplyDomain):
+    """The public storage methods evaluated *through* the store exchange: `values` is an exact dict of symbolic keys,
+    lists and dicts are exact (pmcsa/colls.py), each reply-line read returns the next scripted line.  What comes out
+    is the value the caller gets for (which keys, noreply, which reply per key)."""
+
+    max_inline_depth = 4
+
+    def __init__(self, prog, fn, replies, noreply, exch_names, store_names, readers):
+        ReplyDomain.__init__(self, prog, fn, b"", noreply, [n for n in exch_names if n not in store_names])
+        self.replies = tuple(replies)
+        self.readers = set(readers)
+        self.base = prog.module("pymemcache/client/base.py")
+
+    global_keys = ("nread", "overread", "nsend", "imprecise")
+
+    def mark_imprecise(self, state, node):
+        return state.set("imprecise", 1)
+
+    def name_load(self, name, state, node=None):
+        if state.has(name):
+            return state.get(name)
+        if name in self.readers:
+            return Opaque("reader")
+        if name in self.base.assigns and name.isupper():
+            try:
+                return _lift(self.base.const(name))
+            except NotConst:
+                return TOP
+        return ReplyDomain.name_load(self, name, state, node)
+
+    def attr_load(self, objval, node, state):
+        b = self.coll_attr(objval, node)
+        if b is not None:
+            return b
+        if is_self_attr(node, "sock"):
+            return Opaque("sock")  # connected: connection handling is C06's subject
+        if is_self_attr(node, "ignore_exc") and getattr(self, "ignore_exc", None) is not None:
+            return Const(self.ignore_exc)
+        return ReplyDomain.attr_load(self, objval, node, state)
+
+    def subscript_load(self, objval, idxval, node, state):
+        r = self.coll_subscript_load(objval, idxval, node, state)
+        if r is not None:
+            return r
+        if isinstance(objval, Const) and isinstance(objval.v, bytes) and isinstance(node.slice, ast.Slice):
+            return TOP, False
+        return ReplyDomain.subscript_load(self, objval, idxval, node, state)
+
+    def consumed_call(self, node, fval, args, kwargs, state):
+        return self.call(node, fval, args, kwargs, state)
+
+    def call(self, node, fval, args, kwargs, state):
+        r = self.coll_call(node, fval, args, kwargs, state)
+        if r is not None:
+            return r
+        name = call_name(node)
+        if fval == Opaque("reader") or (name in ("partial", "functools.partial") and args and args[0] == Opaque("reader")):
+            if name in ("partial", "functools.partial"):
+                return [("ok", Opaque("reader"), state)]
+            i = state.get("nread", 0)
+            if i >= len(self.replies):
+                # the server sends nothing further: the read blocks / times out
+                return [("exc", Exc(ORD, "socket.timeout", node.lineno), state.set("overread", 1))]
+            if self.replies[i] == spec.CLOSE:
+                return [("exc", Exc(ORD, "MemcacheUnexpectedCloseError", node.lineno), state.set("nread", i + 1))]
+            if len(args) >= 3 and isinstance(args[2], Const) and isinstance(args[2].v, int) and not isinstance(args[2].v, bool) and args[2].v != len(self.replies[i]):
+                # a data block read with another size than the VALUE line announced: the stream is out of step
+                return [("exc", Exc(ORD, "WrongBlockSize(%d for a %d byte block)" % (args[2].v, len(self.replies[i])), node.lineno), state)]
+            return [("ok", TupleV((TOP, Const(self.replies[i]))), state.set("nread", i + 1))]
+        if isinstance(node.func, ast.Attribute) and node.func.attr == "sendall":
+            return [("ok", NONE, state.set("nsend", min(3, state.get("nsend", 0) + 1)))]
+        if name in ("self.close", "self.disconnect_all"):
+            return [("ok", NONE, state)]
+        if name == "self.check_key" and args and isinstance(args[0], Opaque) and args[0].tag.startswith("K"):
+            # the wire form of the symbolic key K<i> is the token k<i>
+            return [("ok", Const(args[0].tag.lower().encode()), state)]
+        if name in ("self.serde.deserialize", "self.serde.serialize"):
+            return [("ok", Val("%s(%s)" % (name[11:], ", ".join(map(_show, args)))) if name.endswith("deserialize") else TOP, state)]
+        return ReplyDomain.call(self, node, fval, args, kwargs, state)
+
+
+def _lift(v):
+    from .colls import DictV
+
+    if isinstance(v, dict):
+        return DictV(tuple((_lift(k), _lift(x)) for k, x in v.items()))
+    if isinstance(v, (set, frozenset)):
+        return Const(frozenset(v))
+    if isinstance(v, list):
+        return Const(tuple(v))
+    return Const(v)
+
+
+def _show(v):
+    if isinstance(v, Const):
+        return repr(v.v)
+    if isinstance(v, (Opaque, Val)):
+        return v.tag
+    if isinstance(v, TupleV):
+        return "(%s)" % ", ".join(map(_show, v.items))
+    return str(v)
+
+
+def script_eval(prog, mname, replies, nkeys=2, noreply=False, ignore_exc=False, full=False, oneshot=False):
+    """Evaluate any public wire method of Client end to end against a scripted sequence of reply lines / data blocks.
+    -> (returned values, exception classes)"""
+    from .colls import DictV
+
+    f = prog.method("Client", mname)
+    exn = wire.exchange_names(prog)
+    direct, readers = exchange.recv_reaching_functions(prog)
+    dom = StoreDomain(prog, f, replies, noreply, exn, exn, readers)
+    dom.ignore_exc = ignore_exc
+    ks = tuple(Opaque("K%d" % (i + 1)) for i in range(nkeys))
+    env = {}
+    for p in f.params:
+        if p.name in ("self", "noreply"):
+            continue
+        if p.name == "key":
+            env[p.name] = ks[0]
+        elif p.name == "keys":
+            # a list, or (oneshot) an iterator that can be traversed only once, e.g. a generator
+            env[p.name] = GenV(("caller", p.name), ks) if oneshot else TupleV(ks)
+        elif p.name == "values":
+            env[p.name] = DictV(tuple((k, TOP) for k in ks))
+        elif p.kind == "vararg":
+            env[p.name] = TupleV(())
+        elif p.kind == "kwarg":
+            env[p.name] = DictV(())
+        else:
+            env[p.name] = Val("arg:" + p.name)
+    outs = Interp(dom, f.node, prog).run(Env(env))
+    if full:
+        return outs
+    return [v for s_, v, t in outs.of("ret")], [e.cls for s_, e, t in outs.of("exc")]
+
+
+def has_top(v):
+    from .colls import DictV
+
+    if v is TOP:
+        return True
+    if isinstance(v, TupleV):
+        return any(has_top(x) for x in v.items)
+    if isinstance(v, DictV):
+        return any(has_top(k) or has_top(x) for k, x in v.items)
+    return False
+
+
+def judge(outs, kind, pred):
+    """kind 'ret': every outcome is a return whose value satisfies pred; kind 'raise': every outcome raises class pred
+    (None = any class); kind 'noret': no outcome is a return.
+    -> ('ok' | 'fail' | 'undecided', description of the offending outcomes, witness trace)
+    An offending outcome that the abstraction did not compute exactly (a TOP inside the value, a loop over an unknown
+    iterable on the path, a lookup it cannot resolve) is *undecided*, never a violation."""
+    rets, excs = outs.of("ret"), outs.of("exc")
+    definite, vague, good = [], [], 0
+    for s, v, t in rets:
+        if kind == "ret" and pred(v):
+            good += 1
+            continue
+        (vague if s.get("imprecise", 0) or has_top(v) else definite).append(("returns %s" % _show(v), t))
+    for s, e, t in excs:
+        if kind == "noret" or (kind == "raise" and (pred is None or e.cls == pred)):
+            good += 1
+            continue
+        (vague if s.get("imprecise", 0) or e.cls in (None, "LookupError") else definite).append(("raises %s" % e.cls, t))
+    if not definite and not vague and not good and kind != "noret":
+        definite.append(("has no outcome at all", ()))
+    bad = definite or vague
+    status = "fail" if definite else ("undecided" if vague else "ok")
+    return status, " / ".join(sorted({d for d, t in bad})), (fmt_trace(bad[0][1]) if bad and bad[0][1] else None)
+
+
+def settle(rule, status, what, construct, msg, fn, witness=None):
+    if status == "ok":
+        rule.ok(what)
+    elif status == "fail":
+        rule.fail(construct, msg, fn=fn, node=fn.node, witness=witness)
+    else:
+        rule.undecided(construct, "%s -- the analysis lost the value on this path (%s)" % (what, msg))
+
+
+def const_is(want):
+    return lambda v: isinstance(v, Const) and v.v == want and type(v.v) is type(want)
+
+
+def storage_rows(prog, r3, keying_only=False):
+    """Decision rows of the storage family (also C04.R3): evaluated through the store exchange on exact key
+    collections, the reply line of each command decides the value reported under *that* command's key."""
+    import itertools
+
+    n_rows = 0
+    for mname in spec.STORE_VERBS + ("cas",):
+        f = prog.method("Client", mname)
+        alphabet = spec.STORE_REPLIES[mname]
+        for reply in sorted(set(spec.STORE_VALUES) | {b"BOGUS"}):
+            if keying_only and reply not in alphabet:
+                continue
+            n_rows += 1
+            outs = script_eval(prog, mname, (reply,), nkeys=1, full=True)
+            if reply in alphabet:
+                want = spec.STORE_VALUES[reply]
+                st, got, w = judge(outs, "ret", const_is(want))
+                settle(r3, st, "Client.%s: reply %r -> %r" % (mname, reply, want), "Client.%s:reply:%s" % (mname, reply.decode()), "Client.%s %s for the server reply %r; the documented result is %r" % (mname, got, reply, want), f, w)
+            else:
+                st, got, w = judge(outs, "raise", "MemcacheUnknownError")
+                settle(r3, st, "Client.%s: reply %r (not a reply to `%s`) -> MemcacheUnknownError" % (mname, reply, mname), "Client.%s:reply:%s" % (mname, reply.decode()), "Client.%s %s for the line %r, which is not a reply to `%s`; it must raise MemcacheUnknownError" % (mname, got, reply, mname), f, w)
+        n_rows += 1
+        st, got, w = judge(script_eval(prog, mname, (), nkeys=1, full=True), "noret", None)
+        settle(r3, st, "Client.%s: no reply -> no result" % mname, "Client.%s:reply:<none>" % mname, "Client.%s %s although no reply line was received" % (mname, got), f, w)
+    f = prog.method("Client", "set_many")
+    for n in (0, 1, 2):
+        ks = tuple(Opaque("K%d" % (i + 1)) for i in range(n))
+        for replies in itertools.product((b"STORED", b"NOT_STORED"), repeat=n):
+            n_rows += 1
+            want = TupleV(tuple(k for k, r in zip(ks, replies) if r == b"NOT_STORED"))
+            st, got, w = judge(script_eval(prog, "set_many", replies, nkeys=n, full=True), "ret", lambda v: v == want)
+            settle(r3, st, "Client.set_many(%d keys): replies %s -> failed keys %s" % (n, [r.decode() for r in replies], [k.tag for k in want.items]), "Client.set_many:replies:%s" % ",".join(r.decode() for r in replies), "Client.set_many with keys %s and replies %s %s; the documented result is the list of the keys that were not stored, %s" % ([k.tag for k in ks], [r.decode() for r in replies], got, [k.tag for k in want.items]), f, w)
+    n_rows += 1
+    st, got, w = judge(script_eval(prog, "set_many", (b"STORED",), nkeys=2, full=True), "noret", None)
+    settle(r3, st, "Client.set_many(2 keys): one reply only -> no result", "Client.set_many:replies:short", "Client.set_many %s after one reply line for two commands" % got, f, w)
+    return n_rows
+
+
+def retrieval_rows(prog, r3):
+    """Decision rows of the retrieval family (also C04.R3), end to end: which key, which data block, which flags and
+    which cas token reach the caller."""
+    from .colls import DictV
+
+    def deser(k, data, flags):
+        return Val("deserialize(%s, %r, %d)" % (k, data, flags))
+
+    D, CD = Val("arg:default"), Val("arg:cas_default")
+    fam = {
+        "get": [((b"END",), D), ((b"VALUE k1 5 3", b"abc", b"END"), deser("K1", b"abc", 5))],
+        "gat": [((b"END",), D), ((b"VALUE k1 5 3", b"abc", b"END"), deser("K1", b"abc", 5))],
+        "gets": [((b"END",), TupleV((D, CD))), ((b"VALUE k1 5 3 77", b"abc", b"END"), TupleV((deser("K1", b"abc", 5), Const(b"77"))))],
+        "gats": [((b"END",), TupleV((D, CD))), ((b"VALUE k1 5 3 77", b"abc", b"END"), TupleV((deser("K1", b"abc", 5), Const(b"77"))))],
+        "get_many": [((b"END",), {}), ((b"VALUE k2 5 3", b"abc", b"END"), {"K2": deser("K2", b"abc", 5)}), ((b"VALUE k2 5 3", b"abc", b"VALUE k1 1 2", b"de", b"END"), {"K2": deser("K2", b"abc", 5), "K1": deser("K1", b"de", 1)})],
+        "gets_many": [((b"END",), {}), ((b"VALUE k2 5 3 9", b"abc", b"END"), {"K2": TupleV((deser("K2", b"abc", 5), Const(b"9")))}), ((b"VALUE k2 5 3 9", b"abc", b"VALUE k1 1 2 8", b"de", b"END"), {"K2": TupleV((deser("K2", b"abc", 5), Const(b"9"))), "K1": TupleV((deser("K1", b"de", 1), Const(b"8")))})],
+    }
+    n_rows = 0
+    for mname, rows in sorted(fam.items()):
+        f = prog.method("Client", mname)
+        for replies, want in rows:
+            n_rows += 1
+            if isinstance(want, dict):
+                pred = lambda v, want=want: isinstance(v, DictV) and len(v.items) == len(want) and {k.tag: x for k, x in v.items if isinstance(k, Opaque)} == want
+                wtxt = "{%s}" % ", ".join("%s: %s" % (k, _show(x)) for k, x in want.items())
+            else:
+                pred = lambda v, want=want: v == want
+                wtxt = _show(want)
+            st, got, w = judge(script_eval(prog, mname, replies, full=True), "ret", pred)
+            key = "+".join(r.split(b" ")[0].decode() for r in replies if r.split(b" ")[0] in (b"VALUE", b"END"))
+            if f.param("keys") is not None:
+                n_rows += 1
+                st1, got1, w1 = judge(script_eval(prog, mname, replies, full=True, oneshot=True), "ret", pred)
+                settle(r3, st1, "Client.%s(keys given as a one-shot iterator): %s -> %s" % (mname, [r.decode() for r in replies], wtxt), "Client.%s:one-shot-keys:%s" % (mname, key), "Client.%s, called with keys as an iterator that can be traversed only once (a generator), %s for the reply %s; with a list it is %s: the keys are traversed more than once without being materialised first" % (mname, got1, [r.decode() for r in replies], wtxt), f, w1)
+            settle(r3, st, "Client.%s: %s -> %s" % (mname, [r.decode() for r in replies], wtxt), "Client.%s:reply:%s" % (mname, key), "Client.%s %s for the reply %s; the documented result is %s (key as passed by the caller, data block of that VALUE line deserialised with its flags%s)" % (mname, got, [r.decode() for r in replies], wtxt, ", its cas token" if "gets" in mname or "gats" in mname else ""), f, w)
+        # a reply cut short (no END) never yields a result; a line that is neither VALUE nor END is an error
+        n_rows += 2
+        cut = rows[-1][0][:-1]
+        st, got, w = judge(script_eval(prog, mname, cut, full=True), "noret", None)
+        settle(r3, st, "Client.%s: %s -> no result" % (mname, [r.decode() for r in cut]), "Client.%s:reply:truncated" % mname, "Client.%s %s for the reply %s, which has no END line: the reply is incomplete" % (mname, got, [r.decode() for r in cut]), f, w)
+        st, got, w = judge(script_eval(prog, mname, (b"BOGUS",), full=True), "raise", "MemcacheUnknownError")
+        settle(r3, st, "Client.%s: ['BOGUS'] -> MemcacheUnknownError" % mname, "Client.%s:reply:BOGUS" % mname, "Client.%s %s for the line b'BOGUS', which is not a reply line of the protocol; it must raise MemcacheUnknownError" % (mname, got), f, w)
+    return n_rows
+
+
 def run(chk):
     prog = chk.prog
     base = prog.module("pymemcache/client/base.py")
@@ -112,19 +388,8 @@ def run(chk):
         for t in toks:
             r1.expect(t in values, "%s has a return value" % t.decode(), "STORE_RESULTS_VALUE:missing:%s" % t.decode(), "the accepted reply %s has no entry in STORE_RESULTS_VALUE (KeyError instead of a result)" % t.decode(), file=base.rel, line=base.assigns["STORE_RESULTS_VALUE"].lineno)
     store = [f for f in exchange.exchange_functions(prog) if f.param("values") is not None]
-    for f in store:
-        # the read loop looks the line up in the verb's own accepted set and maps it through the value table
-        vname = f.pos_params()[0].name  # the verb parameter
-        in_valid = [n for n in walk_no_nested(f.node) if isinstance(n, ast.Compare) and len(n.ops) == 1 and isinstance(n.ops[0], ast.In) and isinstance(n.left, ast.Name) and isinstance(n.comparators[0], ast.Subscript) and isinstance(n.comparators[0].value, ast.Name) and n.comparators[0].value.id == "VALID_STORE_RESULTS" and isinstance(n.comparators[0].slice, ast.Name) and n.comparators[0].slice.id == vname]
-        linevar = in_valid[0].left.id if in_valid else None
-        mapped = [n for n in walk_no_nested(f.node) if isinstance(n, ast.Subscript) and isinstance(n.value, ast.Name) and n.value.id == "STORE_RESULTS_VALUE" and isinstance(n.slice, ast.Name) and n.slice.id == linevar]
-        ok = len(in_valid) == 1 and len(mapped) >= 1
-        loops = [n for n in walk_no_nested(f.node) if isinstance(n, ast.For) and any(isinstance(x, ast.Subscript) and isinstance(x.value, ast.Name) and x.value.id == "STORE_RESULTS_VALUE" for x in ast.walk(n))]
-        keyed = False
-        if loops and isinstance(loops[0].target, ast.Name):
-            lv = loops[0].target.id
-            keyed = any(isinstance(n, ast.Assign) and isinstance(n.targets[0], ast.Subscript) and isinstance(n.targets[0].slice, ast.Name) and n.targets[0].slice.id == lv and isinstance(n.value, ast.Subscript) and isinstance(n.value.value, ast.Name) and n.value.value.id == "STORE_RESULTS_VALUE" for n in ast.walk(loops[0]))
-        r1.expect(ok and keyed, "%s: results[key of this command] = STORE_RESULTS_VALUE[line] for a line in VALID_STORE_RESULTS[verb]" % f.qualname, "%s:table-lookup" % f.qualname, "%s does not map each reply line through the tables under the key of the command it answers" % f.qualname, fn=f, node=f.node)
+    if not store:
+        raise AnalysisError("C05: no request/response function with a `values` parameter (the store exchange) was found")
 
     # ------------------------------------------------------------------ R2 method <-> verb, expect_cas, cmd_name
     r2 = chk.rule("C05.R2", "each public method sends the verb it is documented to send; cas tokens are requested exactly in the gets family; errors are reported under that verb")
@@ -160,56 +425,33 @@ def run(chk):
     prefix_symmetry(prog, r2)
 
     # ------------------------------------------------------------------ R3 reply -> return decision tables
-    r3 = chk.rule("C05.R3", "reply -> return value decision tables of delete, touch, flush_all, incr, decr, version over each verb's reply alphabet")
+    r3 = chk.rule("C05.R3", "reply -> return value decision tables: delete, touch, flush_all, incr, decr, version over each verb's reply alphabet; the storage family and the retrieval family evaluated end to end through their exchanges")
     exn = wire.exchange_names(prog)
     n_rows = 0
     for mname, table in sorted(spec.REPLY_TABLE.items()):
         f = prog.method("Client", mname)
         for reply, want in sorted(table.items()):
             n_rows += 1
-            dom = ReplyDomain(prog, f, reply, False, exn)
-            outs = Interp(dom, f.node, prog).run(Env({p.name: TOP for p in f.params if p.name not in ("self", "noreply")}))
-            rets, excs = outs.of("ret"), outs.of("exc")
+            outs = script_eval(prog, mname, (reply,), nkeys=1, full=True)
             if isinstance(want, str) and want.startswith("RAISE:"):
-                ok = not rets and excs and all(e.cls == want[6:] for s, e, t in excs)
-                got = ("returns %s" % [v for s, v, t in rets]) if rets else "raises %s" % [e.cls for s, e, t in excs]
+                st, got, w = judge(outs, "raise", want[6:])
             else:
-                ok = len(rets) >= 1 and not excs and all(isinstance(v, Const) and v.v == want and type(v.v) is type(want) for s, v, t in rets)
-                got = ("returns %s" % sorted({repr(v.v) if isinstance(v, Const) else str(v) for s, v, t in rets})) if rets else "raises %s" % [e.cls for s, e, t in excs]
-            r3.expect(ok, "Client.%s: reply %r -> %r" % (mname, reply, want), "Client.%s:reply:%s" % (mname, reply.decode().split(" ")[0]), "Client.%s %s for the server reply %r; the documented result is %r" % (mname, got, reply, want), fn=f, node=f.node)
+                st, got, w = judge(outs, "ret", const_is(want))
+            settle(r3, st, "Client.%s: reply %r -> %r" % (mname, reply, want), "Client.%s:reply:%s" % (mname, reply.decode().split(" ")[0]), "Client.%s %s for the server reply %r; the documented result is %r" % (mname, got, reply, want), f, w)
+    n_rows += storage_rows(prog, r3)
+    n_rows += retrieval_rows(prog, r3)
     r3.count("rows", n_rows)
 
     # ------------------------------------------------------------------ R4 noreply constants and defaults
     r4 = chk.rule("C05.R4", "with noreply the documented constant is returned; signature defaults are the documented ones and None resolves to default_noreply before use")
     for mname, want in sorted(spec.NOREPLY_CONSTANT.items()):
         f = prog.method("Client", mname)
-        if mname in spec.STORE_VERBS + ("cas", "set_many"):
-            # the store exchange returns {k: True for k in keys} under `if noreply`
-            st = store[0] if store else None
-            ok = False
-            if st is not None:
-                for n in walk_no_nested(st.node):
-                    if isinstance(n, ast.If) and isinstance(n.test, ast.Name) and n.test.id == "noreply":
-                        rr = [r for r in n.body if isinstance(r, ast.Return)]
-                        if rr and isinstance(rr[0].value, ast.DictComp) and isinstance(rr[0].value.value, ast.Constant) and rr[0].value.value.value is True and isinstance(rr[0].value.key, ast.Name) and rr[0].value.key.id == rr[0].value.generators[0].target.id:
-                            ok = True
-            rets = sorted([r for r in walk_no_nested(f.node) if isinstance(r, ast.Return) and r.value is not None], key=lambda r: r.lineno)
-            shape = node_src(rets[-1].value) if rets else ""
-            if mname == "set_many":
-                ok = ok and "if not v" in shape
-            else:
-                kp = f.pos_params()[0].name
-                last = rets[-1].value if rets else None
-                direct = isinstance(last, ast.Subscript) and isinstance(last.slice, ast.Name) and last.slice.id == kp
-                via = isinstance(last, ast.Name) and any(isinstance(n, ast.Assign) and isinstance(n.targets[0], ast.Name) and n.targets[0].id == last.id and isinstance(n.value, ast.Subscript) and isinstance(n.value.slice, ast.Name) and n.value.slice.id == kp for n in walk_no_nested(f.node))
-                ok = ok and (direct or via)
-            r4.expect(ok, "Client.%s: noreply -> %r" % (mname, want), "Client.%s:noreply-constant" % mname, "with noreply Client.%s does not return the documented %r (store exchange must return {key: True} and the method must pick/filter it as documented)" % (mname, want), fn=f, node=f.node)
-            continue
-        dom = ReplyDomain(prog, f, b"", True, exn)
-        outs = Interp(dom, f.node, prog).run(Env({p.name: TOP for p in f.params if p.name not in ("self", "noreply")}))
-        rets = outs.of("ret")
-        ok = rets and not outs.of("exc") and all(isinstance(v, Const) and v.v is want for s, v, t in rets)
-        r4.expect(bool(ok), "Client.%s: noreply -> %r" % (mname, want), "Client.%s:noreply-constant" % mname, "with noreply Client.%s returns %s; the documented constant is %r" % (mname, sorted({str(v) for s, v, t in rets}), want), fn=f, node=f.node)
+        # evaluated end to end with noreply set: no reply line is available, the documented constant comes back
+        many = mname in ("set_many", "delete_many")
+        for n in ((0, 1, 2) if many else (1,)):
+            pred = (lambda v: v == TupleV(())) if mname == "set_many" else (lambda v, want=want: isinstance(v, Const) and v.v is want)
+            st, got, w = judge(script_eval(prog, mname, (), nkeys=n, noreply=True, full=True), "ret", pred)
+            settle(r4, st, "Client.%s%s: noreply -> %r" % (mname, "(%d keys)" % n if many else "", want), "Client.%s:noreply-constant" % mname, "with noreply Client.%s %s; the documented constant is %r (no reply is read, so nothing can be reported as failed)" % (mname, got, want), f, w)
     for mname in spec.NOREPLY_DEFAULT_NONE + spec.NOREPLY_DEFAULT_FALSE:
         f = prog.method("Client", mname)
         p = f.param("noreply")
@@ -239,37 +481,29 @@ def run(chk):
     re_fn = prog.method("Client", "_raise_errors")
     table = {b"ERROR": "MemcacheUnknownCommandError", b"ERROR extra": "MemcacheUnknownCommandError", b"CLIENT_ERROR bad data chunk": "MemcacheClientError", b"SERVER_ERROR out of memory": "MemcacheServerError", b"STORED": None, b"END": None, b"VALUE k 0 1": None, b"5": None}
     for line, want in sorted(table.items()):
-        dom = ReplyDomain(prog, re_fn, b"", False, exn)
+        dom = StoreDomain(prog, re_fn, (), False, exn, exn, ())  # exact collections: a table of (prefix, class) pairs is walked exactly
         pn = [p.name for p in re_fn.pos_params()]
         outs = Interp(dom, re_fn.node, prog).run(Env({pn[0]: Const(line), pn[1]: Const(b"cmd")}))
-        rets, excs = outs.of("ret"), outs.of("exc")
-        if want is None:
-            ok = rets and not excs
-            got = "raises %s" % [e.cls for s_, e, t in excs]
-        else:
-            ok = excs and not rets and all(e.cls == want for s_, e, t in excs)
-            got = "returns normally" if rets else "raises %s" % [e.cls for s_, e, t in excs]
-        r5.expect(bool(ok), "_raise_errors(%r) -> %s" % (line, want or "no error"), "Client._raise_errors:%s" % line.decode().split(" ")[0], "for the reply line %r _raise_errors %s; documented: %s" % (line, got, ("raise " + want) if want else "no error"), fn=re_fn, node=re_fn.node)
-    direct, readers = exchange.recv_reaching_functions(prog)
-    for f in exchange.reading_exchange_functions(prog):
-        al = exchange.local_reader_aliases(f, readers) | set(readers)
-        reads = [n for n in walk_no_nested(f.node) if isinstance(n, ast.Assign) and isinstance(n.value, ast.Call) and isinstance(n.value.func, ast.Name) and n.value.func.id in al and isinstance(n.targets[0], ast.Tuple) and len(n.targets[0].elts) == 2 and isinstance(n.targets[0].elts[1], ast.Name)]
-        r5.expect(len(reads) >= 1, "%s reads reply lines" % f.qualname, "%s:no-line-reads" % f.qualname, "no reply line is read in %s" % f.qualname, fn=f)
-        for rd in reads:
-            lv = rd.targets[0].elts[1].id
-            # statements after the read, in the same block (the read sits in a try: go up to the enclosing block)
-            stmt = rd
-            while not isinstance(getattr(stmt, "_parent", None), (ast.For, ast.While, ast.FunctionDef)):
-                stmt = stmt._parent
-            blk = stmt._parent.body
-            after = blk[blk.index(stmt) + 1:]
-            first_use = None
-            for st in after:
-                if any(isinstance(x, ast.Name) and x.id == lv and isinstance(x.ctx, ast.Load) for x in ast.walk(st)):
-                    first_use = st
-                    break
-            ok = isinstance(first_use, ast.Expr) and isinstance(first_use.value, ast.Call) and call_name(first_use.value) == "self._raise_errors" and first_use.value.args and isinstance(first_use.value.args[0], ast.Name) and first_use.value.args[0].id == lv
-            r5.expect(ok, "%s: a line read at line %d goes through _raise_errors first" % (f.qualname, rd.lineno), "%s:line-used-before-error-check" % f.qualname, "in %s the reply line `%s` is first used by `%s` rather than checked by _raise_errors: an ERROR / CLIENT_ERROR / SERVER_ERROR reply would be interpreted as a result" % (f.qualname, lv, node_src(first_use, 60) if first_use is not None else None), fn=f, node=rd)
+        st, got, w = judge(outs, "ret", lambda v: True) if want is None else judge(outs, "raise", want)
+        settle(r5, st, "_raise_errors(%r) -> %s" % (line, want or "no error"), "Client._raise_errors:%s" % line.decode().split(" ")[0], "for the reply line %r _raise_errors %s; documented: %s" % (line, got, ("raise " + want) if want else "no error"), re_fn, w)
+    # every public method, evaluated end to end against scripted replies: an error line raises its exception at the
+    # first reply position and after a valid first reply (multi-line / multi-command exchanges)
+    errs = {b"ERROR": "MemcacheUnknownCommandError", b"CLIENT_ERROR bad command line format": "MemcacheClientError", b"SERVER_ERROR out of memory": "MemcacheServerError"}
+    n_meth = 0
+    for m in wire.wire_methods(prog):
+        prefixes = [()]
+        if m.name in spec.VALID_FIRST_REPLY:
+            prefixes.append(spec.VALID_FIRST_REPLY[m.name])
+        probe = script_eval(prog, m.name, (), full=True)
+        if probe.of("ret") and not any(s_.get("imprecise", 0) for s_, v, t in probe.of("ret")):
+            continue  # the method returns without reading any reply (quit)
+        n_meth += 1
+        for pre in prefixes:
+            for line, want in sorted(errs.items()):
+                st, got, w = judge(script_eval(prog, m.name, tuple(pre) + (line,), full=True), "raise", want)
+                pos = "first reply line" if not pre else "reply line after %s" % (pre[0].split(b" ")[0].decode())
+                settle(r5, st, "Client.%s: %s as %s -> %s" % (m.name, line.split(b" ")[0].decode(), pos, want), "Client.%s:%s:%s" % (m.name, "first" if not pre else "later", line.split(b" ")[0].decode()), "Client.%s %s when the %s is %r; it must raise %s (an error reply is never interpreted as a result)" % (m.name, got, pos, line, want), m, w)
+    r5.floor("methods that read replies", n_meth, 20)
     # a call's result is computed from its whole reply, and only from it (the C01 framing rule)
     from . import rules_C01, report
 
